@@ -6,6 +6,7 @@ import (
 	"math/rand"
 	"net/url"
 	"strings"
+	"sync/atomic"
 	"time"
 
 	"github.com/zitadel/saml/pkg/provider"
@@ -360,6 +361,34 @@ func c11Case(r *core.Run, idx int, rng *rand.Rand) {
 		} else {
 			r.Count("issuer_checked_query", 1)
 		}
+		// --- transient key-storage failure while the metadata is built: the request may fail, but a document that is
+		// served is still the document of this request's issuer ---
+		if hi == 0 {
+			for _, op := range []string{"GetResponseSigningKey", "GetMetadataSigningKey"} {
+				op := op
+				var nth atomic.Int64 // the first call after installation fails, whatever context it is made with
+				e.W.Plan = func(tag, o string, occ int) string {
+					if o == op && nth.Add(1) == 1 {
+						return sim.FaultError
+					}
+					return ""
+				}
+				mt := fetchMeta(e, eps["meta"].route("metadata"), reqHost, hdr)
+				e.W.Plan = nil
+				r.Count("metadata_requests_with_transient_key_fault", 1)
+				if mt.Call.Panic != "" {
+					viol(mt.Call, "panic", mt.Call.Panic)
+				} else if mt.Err == "" {
+					r.Count("metadata_served_despite_transient_key_fault", 1)
+					if mt.EntityID != wantEntity {
+						viol(mt.Call, "entity_id", fmt.Sprintf("after a transient key-storage failure: entityID %q, expected %q", mt.EntityID, wantEntity))
+					}
+					if len(mt.SSO) == 0 || mt.SSO[0].Location != ssoLoc {
+						viol(mt.Call, "advertised_sso", fmt.Sprintf("after a transient key-storage failure: SingleSignOnService %v, expected location %q", mt.SSO, ssoLoc))
+					}
+				}
+			}
+		}
 		// --- key rotation: what is published must follow the key storage hands out NOW ---
 		if hi == len(hosts)-1 {
 			oldKey := e.W.RespKey
@@ -412,6 +441,7 @@ func init() {
 			r.Require("issuer_checked_query", 100)
 			r.Require("want_signed_probes", 200)
 			r.Require("key_rotations", 100)
+			r.Require("metadata_requests_with_transient_key_fault", 100)
 			return []core.Workload{{Name: "configurations", N: c.Pick(200, 2500), Fn: c11Case}}
 		},
 		After: func(c *Ctx) { verify.Py.Close() },
